@@ -745,7 +745,7 @@ func ttyFail(out *scenOut) {
 	}
 	if len(stuck) > 0 {
 		out.fail(finding{Property: "C13", Class: "new", What: "calls never return after Run ended with a start-up failure (input terminal cannot be opened)",
-			Input: "NewProgram(m, WithInputTTY()) in a process without a controlling terminal; callers: " + strings.Join(stuck, ","),
+			Input:    "NewProgram(m, WithInputTTY()) in a process without a controlling terminal; callers: " + strings.Join(stuck, ","),
 			Expected: "every call returns once the program has ended", Observed: strings.Join(stuck, ",") + " still blocked"})
 	}
 }
